@@ -151,7 +151,7 @@ def features(fam, opts, assertions):
     toks = set(tok for a in assertions for tok in a.replace('(', ' ').replace(')', ' ').split())
     return {'logic': fam.logic, 'family': fam.name, 'options': sorted(opts), 'input_class': 'big_constant' if big else 'small',
             'bool_var': bool(toks & {'p', 'q', 'r', 's'}), 'engine': engine_of(opts),
-            'satelite': any(o in opts for o in ('noincr', 'asymm', 'rcheck', 'noelim'))}      # every one of these sets :incremental false (SatELite preprocessing on)
+            'satelite': any(o in opts for o in ('noincr', 'asymm', 'rcheck')) and 'noelim' not in opts}      # :incremental false with variable elimination on
 
 
 def engine_of(opts):
